@@ -25,6 +25,8 @@ fn prop_by_id(id: &str) -> Option<Box<dyn Prop>> {
     match id {
         "C01" => Some(Box::new(props::c01::C01)),
         "C19" => Some(Box::new(props::c19::C19)),
+        "C02" => Some(Box::new(props::c02::C02)),
+        "C05" => Some(Box::new(props::c05::C05)),
         "C03" => Some(Box::new(props::c03::C03)),
         "C04" => Some(Box::new(props::c03::C04)),
         "C06" => Some(Box::new(props::c06::C06)),
